@@ -53,6 +53,7 @@ func initNormalizationHeader() {
 			// The below can also accept quality values, see RFC 9110
 			"Accept-Encoding",
 			"TE",
+			"Te", // canonical form of "TE", the key the field has in http.Header
 		} {
 			normalizationHeader.byEncoding[field] = struct{}{}
 		}
